@@ -245,6 +245,22 @@ class Runner:
                     ctl.signal(signal.SIGTERM)
                     self.after_step()
                     self._clean_restart()
+                elif op == "stop":
+                    # clean stop: TERM, wait for the exit, the pipes go away; the queue stays
+                    ctl.signal(signal.SIGTERM)
+                    for _ in range(20):
+                        pr = ctl.send_proc()
+                        if pr is None or pr.state == "dead":
+                            break
+                        if ctl.delcmds:
+                            self.answer_all()
+                        else:
+                            ctl.run()
+                    ctl.crash(None)
+                    ctl.trace[-1]["op"] = "stopped"
+                elif op == "start":
+                    ctl.start()
+                    ctl.run()
                 elif op == "crash":
                     self.crash_restart(act[1] if len(act) > 1 else False)
                 elif op == "spawnerdied":
